@@ -23,6 +23,7 @@ type CorpusItem struct {
 	Path    string  `json:"path"`
 	Cfg     CfgSpec `json:"cfg"`
 	Fail    string  `json:"fail,omitempty"`
+	Twin    int     `json:"twin,omitempty"` // index of the item "same path, Config modified after Parse" (0: none)
 	Outcome string  `json:"outcome,omitempty"`
 }
 
@@ -67,6 +68,14 @@ func buildCorpus(seed uint64) []CorpusItem {
 			p = genPathFor(pd[rn(len(pd))], cfg.Funcs, chance(20), 4, 2)
 		}
 		items = append(items, CorpusItem{Path: p.Text, Cfg: cfg, Fail: p.Fail})
+	}
+	// twins: the same path parsed with the Config as it is after the caller replaced every
+	// function in it (the fresh-process expectation for "Parse again with the modified Config")
+	for i := 0; i < n; i++ {
+		if items[i].Cfg.Present && i%4 == 0 {
+			items[i].Twin = len(items)
+			items = append(items, CorpusItem{Path: items[i].Path, Cfg: CfgSpec{Present: true, Replaced: true}, Fail: items[i].Fail, Twin: -1})
+		}
 	}
 	return items
 }
@@ -156,11 +165,6 @@ type keptConfig struct {
 	spec CfgSpec
 }
 
-func replacedFilter(v interface{}) (interface{}, error) { return "REPLACED-AFTER-PARSE", nil }
-func replacedAggregate(v []interface{}) (interface{}, error) {
-	return "REPLACED-AFTER-PARSE", nil
-}
-
 func runC19() *RunResult {
 	w := &World{prop: "C19"}
 	if c19Corpus == nil {
@@ -170,7 +174,7 @@ func runC19() *RunResult {
 	if chance(35) {
 		nt = 2 + rn(3)
 	}
-	n := len(c19Corpus)
+	n := corpusSize() // histories draw base items; twins are reached through "modify, parse again"
 	cases := []uint64{}
 	for ti := 0; ti < nt; ti++ {
 		t := &Task{id: ti}
@@ -242,15 +246,8 @@ func runC19() *RunResult {
 						o.Got = "no kept config"
 						return
 					}
-					for f := 0; f < nFuncs; f++ {
-						if isAggregate(f) {
-							kept.cfg.SetAggregateFunction(funcNames[f], replacedAggregate)
-						} else {
-							kept.cfg.SetFilterFunction(funcNames[f], replacedFilter)
-						}
-					}
-					kept.cfg.SetAccessorMode()
-					kept.spec = CfgSpec{Present: true, Funcs: ^uint32(0)} // never equal to a corpus config again
+					modifyConfig(&kept.cfg)
+					kept.spec = CfgSpec{Present: true, Replaced: true}
 					t.probe("config-modified-after-parse")
 					o.Got = fmt.Sprintf("re-probed %d", len(keptFns))
 					for _, kf := range keptFns {
@@ -266,6 +263,25 @@ func runC19() *RunResult {
 									fmt.Sprintf("function parsed from %q with %s, after its Config value was modified\n  got           %s\n  as parsed     %s", c19Corpus[kf.item].Path, c19Corpus[kf.item].Cfg, clip(got, 600), clip(c19Expect[kf.item], 600)))
 								return
 							}
+						}
+					}
+					// Parse the same paths again with the modified Config value: the new functions
+					// must be the ones used (fresh-process expectation: the twin item)
+					for _, kf := range keptFns {
+						tw := c19Corpus[kf.item].Twin
+						if tw <= 0 || c19Expect == nil {
+							continue
+						}
+						_, got, _ := execItem(c19Corpus[tw], []jsonpath.Config{kept.cfg}, 0, &t.rec)
+						if simrt.Aborted() != 0 {
+							return
+						}
+						t.judged++
+						t.probe("parsed-again-with-the-modified-config")
+						if got.String() != c19Expect[tw] {
+							t.fail("C19:outcome-differs-from-first-call-in-fresh-process", c19Corpus[tw].Path,
+								fmt.Sprintf("Parse(%q) with a Config value whose functions were replaced after an earlier Parse of the same path\n  got               %s\n  fresh process got %s", c19Corpus[tw].Path, clip(got.String(), 600), clip(c19Expect[tw], 600)))
+							return
 						}
 					}
 					keptFns = nil
